@@ -347,3 +347,26 @@ theorem liveStep_tryStack_finally (ex : Nat) (vm : VM) (tf : TryFrame) (h1 : tf.
   split <;> simp
 
 end GojaModel.C09.Mech
+
+namespace GojaModel.C09.Mech
+
+/-- The `try` instruction (pushTryFrame) commutes with a change of caller. -/
+theorem pushTryFrame_rebase (lo g : VM) (cp fp : Int) :
+    pushTryFrame (rebase lo g) cp fp = rebase lo (pushTryFrame g cp fp) := by
+  simp [pushTryFrame, rebase, shiftFrame, shiftCtx, Nat.add_comm]
+
+/-- `leaveTry` / `leaveFinally` (popTryFrame) commute with a change of caller as long as a generator-owned frame is popped. -/
+theorem popTryFrame_rebase (lo g : VM) (h : g.tryStack ≠ []) :
+    popTryFrame (rebase lo g) = rebase lo (popTryFrame g) := by
+  simp only [popTryFrame, rebase]
+  congr 1
+  rw [List.dropLast_append_of_ne_nil (by simpa using h)]
+  simp [List.map_dropLast]
+
+/-- `restoreStacks` to lengths recorded by a generator-owned frame commutes with a change of caller (same iterators closed). -/
+theorem restoreStacks_rebase (lo g : VM) (i r : Nat) :
+    restoreStacks (rebase lo g) (i + lo.iterStack.length) (r + lo.refStack.length)
+      = ((restoreStacks g i r).1, rebase lo (restoreStacks g i r).2) := by
+  simp [restoreStacks, rebase, List.drop_append, List.take_append, take_add_length, drop_add_length]
+
+end GojaModel.C09.Mech
